@@ -196,6 +196,34 @@ pub fn run(input: &[u8], scn: &str, rec: &mut Rec) {
             rec.push_s("onparse.lines", &l.lines.join("\n"));
         }
     }
+    if o.has("addimp") {
+        // an edit that renumbers every index space: one new import of each kind (imports come first)
+        let r = guarded(|| {
+            let ty = p.module.types.add(&[walrus::ValType::F32], &[]);
+            let (f, _) = p.module.add_import_func("wv.add", "f", ty);
+            let (g, _) = p.module.add_import_global("wv.add", "g", walrus::ValType::I64, false, false);
+            let (t, _) = p.module.add_import_table("wv.add", "t", false, 1, Some(2), walrus::RefType::Funcref);
+            let (m, _) = p.module.add_import_memory("wv.add", "m", false, false, 1, None, None);
+            p.module.funcs.get_mut(f).name = Some("wv_added_f".into());
+            p.module.globals.get_mut(g).name = Some("wv_added_g".into());
+            p.module.tables.get_mut(t).name = Some("wv_added_t".into());
+            p.module.memories.get_mut(m).name = Some("wv_added_m".into());
+        });
+        if let Err(pan) = r {
+            rec.push_s("panic.addimp", &pan);
+        }
+        if let Some(first) = emit_into(rec, "addimp", &mut p.module) {
+            // the edited output is walrus's own output too: it must be a fixpoint
+            match parse_with(&first, o.cfg, false, false) {
+                Err(pan) => rec.push_s("panic.addimp-fix.parse", &pan),
+                Ok(Err(e)) => rec.push_s("err.addimp-fix.parse", &e),
+                Ok(Ok(mut p2)) => {
+                    emit_into(rec, "addimp-fix", &mut p2.module);
+                }
+            }
+        }
+        return;
+    }
     if o.has("emit") {
         if o.has("ins") {
             match guarded(|| insert_markers(&mut p.module, wv_gen::rng::fnv64(input))) {
